@@ -231,15 +231,25 @@ func run(repo, dir string, seed uint64, cfg runCfg, keep bool) int {
 		out.Count("unit.options." + strings.Join(u.PLineOptions(), ","))
 		vcfg := valgen.Config{Count: out.Count, NilElems: true, UnionAnyCount: true, NilUnions: true}
 		vcfg.DupSets = true // FastAppend does not validate sets
-		for sidx, st := range u.Schema.Structs {
+		if u.Tag == "aim" {
+			// regression items first: the fixed inputs that witnessed the three defects of the unguarded generator
+			// (docs/C10.md) and the other aimed reads/values, before anything random
+			for sidx, st := range u.Schema.Structs {
+				key := fmt.Sprintf("%s:%d", u.Key, sidx)
+				aimedReads(u, sidx, key, st, ls)
+			}
+			for sidx := range u.Schema.Structs {
+				key := fmt.Sprintf("%s:%d", u.Key, sidx)
+				for _, v := range aimedValues(u.Schema, sidx) {
+					genOps(r, cfg, u, sidx, key, v, ls, out)
+				}
+			}
+		}
+		for sidx := range u.Schema.Structs {
 			key := fmt.Sprintf("%s:%d", u.Key, sidx)
 			nv := cfg.values
 			if u.Tag == "aim" {
 				nv = cfg.values * 2
-				for _, v := range aimedValues(u.Schema, sidx) {
-					genOps(r, cfg, u, sidx, key, v, ls, out)
-				}
-				aimedReads(u, sidx, key, st, ls)
 			}
 			for k := 0; k < nv; k++ {
 				v := valgen.Gen(r, u.Schema, sidx, 1+r.Intn(6), vcfg)
